@@ -23,4 +23,10 @@ def farmValidatesTaxRate : Bool := false
 /-- farm `validateTaxRate` rejects an unset decimal before comparing it -/
 def farmTaxRateNilGuard : Bool := false
 
+/-- coinswap `Params.Validate` validates the pool-creation-fee denomination -/
+def coinswapValidatesFeeDenom : Bool := false
+
+/-- token `validateIssueTokenBaseFee` validates the base-fee denomination -/
+def tokenValidatesFeeDenom : Bool := false
+
 end Irismod.Gen.Handlers
